@@ -1163,6 +1163,50 @@ def sec_switch(ctx):
                m.loc)
 
 
+def accepted_means_handed_on(ctx) -> None:
+    """A request answered ACCEPTED has been handed to the link layer, to a buffer that is flushed later (location-service
+    buffer, contention buffer) or to another origination function - on every path on which a link layer exists."""
+    P = ctx.prog
+    r = P.cls(G.ROUTER)
+    n_sites = 0
+    for name, fi in sorted(r.methods.items()):
+        if not name.startswith("gn_data_request"):
+            continue
+        k_acc = -1
+        for ret in sorted([n for n in ast.walk(fi.node) if isinstance(n, ast.Return) and n.value is not None], key=lambda n: n.lineno):
+            v = ret.value
+            if not (isinstance(v, ast.Call) and (dotted(v.func) or "").endswith("GNDataConfirm")):
+                continue
+            code = [k.value for k in v.keywords if k.arg == "result_code"] or list(v.args[:1])
+            if not code or not (dotted(code[0]) or "").endswith("ResultCode.ACCEPTED"):
+                continue
+            n_sites += 1
+            k_acc += 1
+            bad = []
+            try:
+                paths = sem.paths_to(fi.node, ret)
+            except ValueError:
+                raise AnalysisError(f"C01: too many paths in {fi.short()}")
+            for conds, stmts in paths:
+                if "!truthy(self.link_layer)" in conds or "is(None,self.link_layer)" in conds:
+                    continue          # no link layer configured: nothing can be sent at all
+                handed = False
+                for s_ in stmts:
+                    for c in [x for x in ast.walk(s_) if isinstance(x, ast.Call)]:
+                        d = dotted(c.func) or ""
+                        if d == "self.link_layer.send" or d in ("self.gn_ls_request", "self.gn_area_cbf_forwarding") or \
+                                d.startswith("self.gn_data_request") or (d.endswith(".append") and "_ls_packet_buffers" in d):
+                            handed = True
+                if not handed:
+                    bad.append(sorted(a for a in conds if "link_layer" not in a)[-3:])
+            ctx.ob("C01.req-fwd", fi.short(), f"accepted-means-handed-on#{k_acc}", not bad,
+                   "ACCEPTED is answered only after the packet was handed to the link layer or to a buffer that is flushed later" if not bad else
+                   f"ACCEPTED is answered on a path that neither sends nor buffers the packet (conditions {bad[0]}): the payload is lost "
+                   "although the requester was told it was accepted", f"{fi.module.rel}:{ret.lineno}")
+    if n_sites < 4:
+        raise AnalysisError(f"C01: only {n_sites} ACCEPTED confirmations found in the origination functions")
+
+
 def run(ctx):
     ctx.explanation = (
         "Layout / provenance / guard rules across the BTP <-> GN boundary. Framing: every slice constant a consumer applies "
@@ -1180,3 +1224,4 @@ def run(ctx):
     addressee(ctx)
     location_service(ctx)
     sec_switch(ctx)
+    accepted_means_handed_on(ctx)
